@@ -21,7 +21,8 @@ ASSUMPTIONS = ['ref_root_attach in this file is the set-based reading of the '
                'when the lowest common dominator is the root']
 WATCHDOG = {'quick': 600, 'thorough': 3600}
 MIN = {'quick': {'distinct': 400, 'hooks': {'transform.root_attach': 2000},
-                 'strata': {'moved>=2': 100, 'moved constituent': 50,
+                 'strata': {'second call after in-place detachment': 300,
+                            'moved>=2': 100, 'moved constituent': 50,
                             'moved, boundary extended over siblings': 50,
                             'moved, interleaved sibling passed over': 20}},
        'thorough': {'distinct': 20000,
@@ -161,6 +162,23 @@ def run_tree(ctx, spec, rng):
     try:
         with common.captured():
             ctx.R.transform.root_attach(live)
+            if rng.random() < 0.25:
+                # same node objects: detach some nodes to the root again (in
+                # place, through the raw attributes) and attach once more
+                stack = [live]
+                moved = 0
+                while stack:
+                    x = stack.pop()
+                    stack.extend(x.children)
+                    if x.parent is not None and x.parent is not live and \
+                            len(x.parent.children) > 1 and rng.random() < 0.2:
+                        x.parent.children.remove(x)
+                        live.children.append(x)
+                        x.parent = live
+                        moved += 1
+                if moved:
+                    ctx.R.transform.root_attach(live)
+                    ctx.stratum('second call after in-place detachment')
     except Exception:
         pass
 
